@@ -40,53 +40,43 @@ theorem code_activateWith_callee (w : X Rat) (ante : Py.M (X Rat)) :
 
 /-- the antecedent's evaluation as the callee of `Rule.activate_with`: the translated `Antecedent.activation_degree`
     on the loaded tree `a` -/
-def anteCall (c : DegCtx Rat) (hasTerms : String → Bool) (a : ANode) : Py.M (X Rat) :=
-  Antecedent_activation_degree.run c hasTerms (ofANode a) c.conj c.disj .none {} >>= fun s => Py.deref s.ret
+def anteCall (c : DegCtx Rat) (a : ANode) : Py.M (X Rat) :=
+  Antecedent_activation_degree.run c (ofANode a) c.conj c.disj .none {} >>= fun s => Py.deref s.ret
 
-theorem anteCall_eq (c : DegCtx Rat) (hasTerms : String → Bool) (a : ANode) :
-    anteCall c hasTerms a = if (varsOf a).all hasTerms then degToPy (degree c a) else .error .value := by
-  have h := code_activationDegree_loaded c hasTerms a
+theorem anteCall_eq (c : DegCtx Rat) (a : ANode) : anteCall c a = degToPy (degree c a) := by
+  have h := code_activationDegree_loaded c a
   unfold anteCall
-  cases hall : (varsOf a).all hasTerms
-  · simp only [hall, Bool.false_eq_true, if_false] at h ⊢
-    rw [h]; rfl
-  · simp only [hall, if_true] at h ⊢
-    cases hd : degree c a with
-    | error k => rw [hd] at h; simp only at h; rw [h]; rfl
-    | ok d =>
-      rw [hd] at h
-      obtain ⟨σ, h1, h2⟩ := h
-      rw [h1]
-      simp [bind, Except.bind, h2, degToPy]
+  cases hd : degree c a with
+  | error k => rw [hd] at h; simp only at h; rw [h]; rfl
+  | ok d =>
+    rw [hd] at h
+    obtain ⟨σ, h1, h2⟩ := h
+    rw [h1]
+    simp [bind, Except.bind, h2, degToPy]
 
-/-- **`Rule.activate_with` = `Op.activateWith`** (the model of C06: weight × degree of the loaded antecedent) and
-    `Op.Activation.activateWith` (the model of C08, which reads the product from the field `degree` of its rule); when a
-    variable of the antecedent has lost its terms, the `ValueError` of the antecedent is passed on -/
-theorem code_activateWith (c : DegCtx Rat) (hasTerms : String → Bool) (w : X Rat) (a : ANode) :
-    Rule_activate_with.run false w (anteCall c hasTerms a) {} = .error .runtime ∧
-    if (varsOf a).all hasTerms then
-      match Op.activateWith c w a with
-      | .error k => Rule_activate_with.run true w (anteCall c hasTerms a) {} = .error k.toPy
-      | .ok d => ∃ σ, Rule_activate_with.run true w (anteCall c hasTerms a) {} = .ok σ ∧ σ.ret = some d ∧
-          σ.self_activation_degree = d ∧
-          ∀ r : Rule Rat, r.degree = d →
-            { r with actDegree := σ.self_activation_degree } = Op.Activation.activateWith r
-    else Rule_activate_with.run true w (anteCall c hasTerms a) {} = .error .value := by
-  have h := code_activateWith_callee w (anteCall c hasTerms a)
+/-- **`Rule.activate_with` = `Op.activateWith`** (the model of C06: weight × degree of the loaded antecedent, or its
+    `ValueError`) and `Op.Activation.activateWith` (the model of C08, which reads the product from the field `degree` of
+    its rule) -/
+theorem code_activateWith (c : DegCtx Rat) (w : X Rat) (a : ANode) :
+    Rule_activate_with.run false w (anteCall c a) {} = .error .runtime ∧
+    match Op.activateWith c w a with
+    | .error k => Rule_activate_with.run true w (anteCall c a) {} = .error k.toPy
+    | .ok d => ∃ σ, Rule_activate_with.run true w (anteCall c a) {} = .ok σ ∧ σ.ret = some d ∧
+        σ.self_activation_degree = d ∧
+        ∀ r : Rule Rat, r.degree = d →
+          { r with actDegree := σ.self_activation_degree } = Op.Activation.activateWith r := by
+  have h := code_activateWith_callee w (anteCall c a)
   refine ⟨h.1, ?_⟩
   have h2 := h.2
   rw [anteCall_eq] at h2 ⊢
-  cases hall : (varsOf a).all hasTerms
-  · simpa [hall] using h2
-  · simp only [hall, if_true] at h2 ⊢
-    unfold Op.activateWith
-    cases hd : degree c a with
-    | error k => rw [hd] at h2; exact h2
-    | ok d =>
-      rw [hd] at h2
-      obtain ⟨σ, h1, h3, h4⟩ := h2
-      refine ⟨σ, h1, h3, h4, fun r hr => ?_⟩
-      simp only [Op.Activation.activateWith, h4, hr]
+  unfold Op.activateWith
+  cases hd : degree c a with
+  | error k => rw [hd] at h2; exact h2
+  | ok d =>
+    rw [hd] at h2
+    obtain ⟨σ, h1, h3, h4⟩ := h2
+    refine ⟨σ, h1, h3, h4, fun r hr => ?_⟩
+    simp only [Op.Activation.activateWith, h4, hr]
 
 /-- **`Rule.trigger` = `Op.Consequent.trigger`** (C07) **and `Op.Activation.trigger`** (C08).  A rule that is not
     loaded raises `RuntimeError`; a loaded one with the conclusions `cs` (not empty: the consequent is loaded) sets
